@@ -92,7 +92,7 @@ def accumulation_sites(body, loop):
 def r1_dedup(ctx):
     F = ctx.F
     fam = family(ctx)
-    if len(fam) < 3:
+    if len(fam) < (3 if ctx.config in ("default", "all-features") else 2):
         ctx.bad("family", "", "only %d consumers of matching replication rules found (expected ServerWorld::new_archetype, "
                 "RemovalBuffer::update, scene::replicate_into)" % len(fam), kind="anchor-missing")
     for root in sorted(fam):
@@ -227,7 +227,7 @@ def r3_only_rule_components(ctx):
 
 
 RULES = [
-    ("C18.R1", "every consumer of overlapping replication rules de-duplicates components", r1_dedup, 3, None),
+    ("C18.R1", "every consumer of overlapping replication rules de-duplicates components", r1_dedup, 2, None),
     ("C18.R2", "scene export covers every replicated entity once (entry per entity, existing entities merged, map written back)", r2_entity_coverage, 8, ["default", "all-features"]),
     ("C18.R3", "only rule-selected components of the entity itself are exported", r3_only_rule_components, 5, ["default", "all-features"]),
 ]
